@@ -607,8 +607,8 @@ def is_env_crash(sig):
     site, exc, frames = sig.get('site') or '', sig.get('exc'), sig.get('frames') or []
     if exc == 'RecursionError':
         return 'get_filters' in site or 'get_filters' in frames
-    if exc == 'AttributeError':
-        return site.endswith('compiled/__init__.py:builtin_from_name') and 'non_stub_value_set' in (sig.get('msg') or '')
+    if exc in ('AttributeError', 'UncaughtAttributeError'):     # the latter is jedi's re-raise wrapper
+        return "'CompiledModule' object has no attribute 'non_stub_value_set'" in (sig.get('msg') or '')
     if exc == 'ValueError':
         return site.endswith('iterable.py:_get_cls') or site.endswith('function.py:py__class__')
     if exc == 'AssertionError':
